@@ -107,6 +107,33 @@ def gen_cases(tier):
                 for st in ("t--", "t/*"):
                     for pos in range(len(L)):
                         cases.append({"script": sn, "ins": [["trail", st, 100 + mi, pos]]})
+    # scale sweep: every number 3..30 (thorough ..80) of comments in one script (whole-line styles cycling, every fifth one trailing), each
+    # with its own numbered text; and one comment of every text length 1..300 (..700) in four styles
+    WS = ["--", "b1", "#", "b2", "--nosp", "b3", "ind--", "b1nosp"]
+    for sn in SCRIPTS:
+        L = script_lines(sn)
+        for k in range(3, (80 if tier == "thorough" else 30) + 1):
+            for stride in (1, 3):
+                ins = []
+                for i in range(k):
+                    if i % 5 == 4 and i // 5 < len(L):
+                        ins.append(["trail", ("t--", "t/*")[(i // 5) % 2], 1000 + i, (i // 5 * stride) % len(L)])
+                    else:
+                        ins.append(["whole", WS[(i + k) % len(WS)], 1000 + i, (i * stride) % (len(L) + 1)])
+                # two trailing comments on one line are one comment: keep the first per line
+                seen_t, keep = set(), []
+                for x in ins:
+                    if x[0] == "trail":
+                        if x[3] in seen_t:
+                            continue
+                        seen_t.add(x[3])
+                    keep.append(x)
+                cases.append({"script": sn, "ins": keep})
+    for n in range(1, (700 if tier == "thorough" else 300) + 1):
+        for j, st in enumerate(("--", "b1", "b3", "t--")):
+            sn = list(SCRIPTS)[(n + j) % len(SCRIPTS)]
+            L = script_lines(sn)
+            cases.append({"script": sn, "ins": [["trail" if st.startswith("t") else "whole", st, 2000 + n, (n + j) % len(L)]]})
     if tier == "thorough":
         for sn in SCRIPTS:
             L = script_lines(sn)
@@ -118,6 +145,10 @@ def gen_cases(tier):
 
 
 def text_of(ti):
+    if ti >= 2000:
+        return ("remark about the nightly load of table t9 and its 3 keys, " * 12)[:ti - 2000].rstrip() or "x"
+    if ti >= 1000:
+        return "note number %d" % (ti - 1000)
     return MARKED_TEXTS[ti - 100] if ti >= 100 else TEXTS[ti]
 
 
